@@ -2,6 +2,7 @@ SPECIFICATION TraceSpec
 CONSTANTS
   Repaired = TRUE
   RepairedSI = TRUE
+  Mutant = "none"
   RepairedN88 = TRUE
   RepairedN115 = TRUE
 POSTCONDITION TraceAccepted
